@@ -1,5 +1,6 @@
 //! Engine K: Kani/CBMC harnesses over the real brave/sta-rs crates (path deps on /repo).
 //! One `#[kani::proof]` per obligation; see /verif/DESIGN.md and /verif/run.py.
+#![recursion_limit = "512"]
 #![allow(unused_imports)]
 #![allow(static_mut_refs)]
 #![allow(non_snake_case)]
@@ -7,5 +8,7 @@
 pub mod stubs;
 #[cfg(kani)]
 pub mod c09;
+#[cfg(kani)]
+pub mod c04;
 #[cfg(kani)]
 pub mod warmup;
